@@ -228,8 +228,46 @@ func modelTerms(g *Group) (names []string, terms []*Term) {
 
 const modelBytes = 64
 
+// dumpCore writes a query whose path-condition conjuncts are individually named, for unsat-core inspection.
+func dumpCore(g *Group, file string) {
+	o := g.Obls[0]
+	p := NewPrinter()
+	var names []string
+	var conj []*Term
+	if o.PC.Op == "and" {
+		conj = o.PC.Args
+	} else {
+		conj = []*Term{o.PC}
+	}
+	conj = append(conj, boundFactsFor(conj...)...)
+	for _, c := range conj {
+		names = append(names, p.ref(c))
+	}
+	var sb strings.Builder
+	sb.WriteString("(set-option :produce-unsat-cores true)\n(set-logic ALL)\n")
+	for _, n := range p.declOrd {
+		fmt.Fprintf(&sb, "(declare-const %s %s)\n", smtName(n), p.decls[n])
+	}
+	for _, n := range p.funOrd {
+		sb.WriteString(p.funs[n] + "\n")
+	}
+	sb.WriteString(p.sb.String())
+	for i, n := range names {
+		fmt.Fprintf(&sb, "(assert (! %s :named c%d)) ; %s\n", n, i, showTerm(conj[i], 6))
+	}
+	sb.WriteString("(check-sat)\n(get-unsat-core)\n")
+	os.WriteFile(file, []byte(sb.String()), 0o644)
+}
+
 func discharge(groups []*Group, workDir string, timeout int, confirm bool, workers int) []*Result {
 	os.MkdirAll(workDir, 0o755)
+	if n := os.Getenv("GOVC_CORE"); n != "" {
+		for _, g := range groups {
+			if strings.Contains(g.Name, n) {
+				dumpCore(g, "/tmp/core.smt2")
+			}
+		}
+	}
 	results := make([]*Result, len(groups))
 	var wg sync.WaitGroup
 	sem := make(chan struct{}, workers)
@@ -253,7 +291,7 @@ func discharge(groups []*Group, workDir string, timeout int, confirm bool, worke
 		}
 		p := NewPrinter()
 		var asserts []*Term
-		if g.Kind != "cover" {
+		if g.Kind != "cover" && g.Kind != "cover-call" {
 			// axioms are conservative definitions of fresh symbols: a cover (satisfiability) query does not need them
 			asserts = append(asserts, g.Axioms...)
 			asserts = append(asserts, relevantAxioms(defAxiomsGlobal, f)...)
@@ -288,7 +326,10 @@ func discharge(groups []*Group, workDir string, timeout int, confirm bool, worke
 			defer wg.Done()
 			defer func() { <-sem }()
 			t1 := timeout
-			if len(groups[j.i].Obls) > 1 && groups[j.i].Kind != "cover" && t1 > 6 {
+			if groups[j.i].Kind == "cover-call" && t1 > 3 {
+				t1 = 3
+			}
+			if len(groups[j.i].Obls) > 1 && groups[j.i].Kind != "cover" && groups[j.i].Kind != "cover-call" && t1 > 6 {
 				t1 = 6 // undecided groups are retried path by path with the full timeout
 			}
 			v, s, out, secs, conf, dis := race2(j.query, j.file, j.fileB, t1, confirm)
@@ -332,7 +373,7 @@ func discharge(groups []*Group, workDir string, timeout int, confirm bool, worke
 	subNames := map[int][]string{}
 	satOut := map[int]string{}
 	for i, r := range results {
-		if r == nil || r.Verdict != "unknown" || len(groups[i].Obls) < 2 || groups[i].Kind == "cover" {
+		if r == nil || r.Verdict != "unknown" || len(groups[i].Obls) < 2 || groups[i].Kind == "cover" || groups[i].Kind == "cover-call" {
 			continue
 		}
 		for k, o := range groups[i].Obls {
